@@ -25,10 +25,10 @@ import (
 )
 
 type Prog struct {
-	ID       string `json:"id"`
-	Src      string `json:"src"`
-	Pre      string `json:"pre"` // run to completion first, in the same environment, by a plain vm.Execute (another run, another context)
-	Threads  int    `json:"threads"` // script goroutines that may log one more effect before they observe
+	ID      string `json:"id"`
+	Src     string `json:"src"`
+	Pre     string `json:"pre"`     // run to completion first, in the same environment, by a plain vm.Execute (another run, another context)
+	Threads int    `json:"threads"` // script goroutines that may log one more effect before they observe
 }
 
 type Obs struct {
